@@ -113,46 +113,72 @@ def run(ctx):
                   "access records are produced only by the read APIs' hit paths (bench-only proxies own separate pools)", pf.where(), str(extra))
 
     # ---- R15.3 buffer conservation -------------------------------------------------------------------
-    bufs = []
+    # buffer add functions: the innermost functions on whose symbolic paths (helpers inlined) an access is pushed into a
+    # vector AND a vector is handed to the consumer
+    is_push = lambda e: e.generic.endswith("Vec::<T, A>::push")
+    is_clear = lambda e: e.generic.endswith("Vec::<T, A>::clear")
+    is_accept = lambda e: e.generic.endswith("BufferConsumer::accept") or e.callee.endswith("BufferConsumer::accept")
+    cand = {}
     for name, f in F.fns.items():
-        pushes = f.calls_to("std::vec::Vec::<T, A>::push")
-        clears = f.calls_to("std::vec::Vec::<T, A>::clear")
-        accepts = f.calls_to("BufferConsumer::accept")
-        takes = [(b, t) for b, t in f.calls_to("std::mem::take", "std::mem::replace")]
-        if pushes and (clears or takes) and accepts:
-            bufs.append((f, pushes, clears, accepts))
+        if f.kind == "Closure" or f.argc < 2:
+            continue
+        if not (reaches_call(F, f, "Vec::<T, A>::push", 2) and reaches_call(F, f, "BufferConsumer::accept", 2)):
+            continue
+        ps = ipaths(F, f, stop=lambda n: False, depth=2)
+        if any(any(is_push(e) for e in p.events) for p in ps) and any(any(is_accept(e) for e in p.events) for p in ps):
+            cand[name] = (f, ps)
+    inner = [n for n, (f, ps) in cand.items() if not any(t.get("rpath") in cand and t.get("rpath") != n for b, t in f.calls())]
+    bufs = [cand[n] for n in sorted(inner)]
     ctx.floor("R15.3", "buffer add functions (push + hand-over + clear)", len(bufs), 1)
-    for f, pushes, clears, accepts in bufs:
+    for f, paths in bufs:
         ctx.touch(f)
-        paths = enum_paths(f)
         ctx.analysed["paths"] += len(paths)
-        pb = {b for b, t in pushes}
-        bad = [p for p in paths if len([b for b in p if b in pb]) != 1]
-        vec = f.op_origin(pushes[0][1]["args"][0])
-        ctx.check(not bad and f.op_origin(pushes[0][1]["args"][1]) == ("param", 2), "R15.3", "%s|push-exactly-once" % f.name,
-                  "every call stores the incoming access exactly once, on every path", f.where(pushes[0][0]))
-        if not clears:
-            # hand-over by std::mem::take / replace: the buffer itself is moved out (emptied) into the event
-            okt = False
-            for ab, at in accepts:
-                ev = f.op_origin(at["args"][1])
-                if ev[0] == "agg" and ev[2] == "Full" and is_call_to(ev[3][0][1], "std::mem::take", "std::mem::replace") and same_value(ev[3][0][1][2][0], vec):
-                    okt = True
-            ctx.check(okt, "R15.3", "%s|handover-moves-buffer" % f.name, "the full buffer is moved out (mem::take) into the Full event, which empties it", f.where())
-        for cb, ct in clears:
-            cvec = f.op_origin(ct["args"][0])
-            doms = [ab for ab, at in accepts if f.block_dominates(ab, cb) and ab != cb]
-            okarg = False
-            for ab, at in accepts:
-                ev = f.op_origin(at["args"][1])
-                if ev[0] == "agg" and ev[2] == "Full" and same_value(ev[3][0][1], cvec) and ev[3][0][1][0] == "call":
-                    okarg = True
-            ctx.check(bool(doms) and okarg and same_value(cvec, vec), "R15.3", "%s|clear-after-handover" % f.name,
-                      "the buffer is cleared only after a clone of the same vector was handed to the consumer as Full(..)", f.where(cb))
-        # the new access is pushed after the clear (not lost with it)
-        for cb, ct in clears:
-            ctx.check(all(pbk in f.reach_after(cb) and cb not in f.reach_after(pbk) for pbk in pb), "R15.3", "%s|push-after-clear" % f.name,
-                      "the incoming access is stored after the hand-over/clear, so it is not wiped", f.where(cb))
+        bad_push, bad_hand, bad_clear, bad_order = [], [], [], []
+        n_hand = 0
+        for p in paths:
+            pushes = [e for e in p.events if is_push(e)]
+            accepts = [e for e in p.events if is_accept(e)]
+            clears = [e for e in p.events if is_clear(e)]
+            if len(pushes) != 1 or pushes[0].args[1] != ("param", 2):
+                bad_push.append(p)
+                continue
+            vec = pushes[0].args[0]
+            if not accepts:
+                if clears:
+                    bad_clear.append(("the buffer is cleared without having been handed over", p))
+                continue
+            n_hand += 1
+            if len(accepts) != 1:
+                bad_hand.append(("%d hand-overs on one call" % len(accepts), p))
+                continue
+            ev = accepts[0].args[1]
+            inner_v = ev[3][0][1] if ev[0] == "agg" and ev[2] == "Full" and ev[3] else None
+            taken = inner_v is not None and is_call_to(inner_v, "std::mem::take", "std::mem::replace") and same_value(inner_v[2][0], vec)
+            cloned = inner_v is not None and inner_v[0] == "call" and inner_v[1] == "clone" and same_value(inner_v, vec)
+            if not (taken or cloned):
+                bad_hand.append(("what is handed to the consumer is not Full(a copy of / the contents of this buffer): %s" % fmt(ev)[:80], p))
+                continue
+            if cloned:
+                if len(clears) != 1 or not same_value(clears[0].args[0], vec):
+                    bad_clear.append(("after the hand-over the same vector must be cleared exactly once (%d clears)" % len(clears), p))
+                    continue
+                if not (accepts[0].seq < clears[0].seq):
+                    bad_clear.append(("the buffer is cleared before its copy was handed over", p))
+                if not (clears[0].seq < pushes[0].seq):
+                    bad_order.append(p)
+            else:
+                if clears and not (clears[0].seq < pushes[0].seq):
+                    bad_order.append(p)
+                if not (accepts[0].seq < pushes[0].seq):
+                    bad_order.append(p)
+        ctx.check(not bad_push and paths, "R15.3", "%s|push-exactly-once" % f.name,
+                  "every call stores the incoming access exactly once, on every path (%d symbolic paths)" % len(paths), f.where(), "; ".join(q.show() for q in bad_push[:2]))
+        ctx.check(not bad_hand and n_hand >= 1, "R15.3", "%s|handover-moves-buffer" % f.name,
+                  "a full buffer is handed to the consumer once as Full(clone of / contents of that very vector)", f.where(), "; ".join("%s %s" % (w, q.show()) for w, q in bad_hand[:2]))
+        ctx.check(not bad_clear, "R15.3", "%s|clear-after-handover" % f.name,
+                  "the buffer is cleared only after a clone of the same vector was handed to the consumer as Full(..)", f.where(), "; ".join("%s %s" % (w, q.show()) for w, q in bad_clear[:2]))
+        ctx.check(not bad_order, "R15.3", "%s|push-after-clear" % f.name,
+                  "the incoming access is stored after the hand-over/clear, so it is not wiped", f.where(), "; ".join(q.show() for q in bad_order[:2]))
 
     # ---- R15.7 the buffer lock is never lent out inside a critical section ---------------------------------
     # snapshot, hand-over, clear and push are one critical section of the buffer lock: a temporary release
@@ -289,6 +315,23 @@ def run(ctx):
                       "%s|read-never-waits" % f.name,
                       "a read API reaches no blocking channel/thread operation and never takes the sketch lock", f.where(),
                       "block=%s acquire=%s nonblock=%s" % (sorted(e["block"]), sorted(e["acquire"]), sorted(e["nonblock"])))
+
+
+def reaches_call(F, f, sub, depth, _memo={}):
+    """f (or a local function it calls, `depth` levels down) contains a call whose callee mentions `sub`"""
+    key = (id(F), f.name, sub, depth)
+    if key in _memo:
+        return _memo[key]
+    _memo[key] = False
+    r = bool(f.calls_to(sub))
+    if not r and depth > 0:
+        for b, t in f.calls():
+            g = F.fns.get(t.get("rpath") or "")
+            if t["res"] == "item" and g is not None and g is not f and reaches_call(F, g, sub, depth - 1):
+                r = True
+                break
+    _memo[key] = r
+    return r
 
 
 def records_directly(F, f, bb, read_names):
